@@ -54,6 +54,12 @@ def bounds(decisions):
                         lo = hi = kv
                         signed = None
                     res.append((x, signed, lo, hi))
+                    # |y| <= k  (unsigned compare of unsigned_abs, or signed compare of abs)  =>  y in [-k, k] as a signed value
+                    if x.op == "abs_s" and hi != INF and hi >= 0:
+                        res.append((x.args[0], True, -hi, hi))
+                    if x.op in ("abs_diff", "abs_diff_s") and hi != INF and hi >= 0:
+                        d = binop("sub", x.args[0], x.args[1], x.w)
+                        res.append((d, True, -hi, hi))
     return res
 
 
